@@ -16,7 +16,7 @@ from harness.core import z, coq_list, coq_bool, coq_opt
 PID = "C11"
 GEN_GROUPS = ["Events", "EventParams"]
 TARGETS = ["coq/Props/C11.vo", "coq/Model/Events.vo", "coq/Model/HeapQ.vo"]
-CASES = {"quick": 400, "thorough": 6000}
+CASES = {"quick": 400, "thorough": 4000}
 MAXLEN = {"quick": 200, "thorough": 2000}
 CORR_HEADER = ("From Coq Require Import ZArith List Bool.\n"
                "From ACN Require Import Base.Num Model.Events.\nImport ListNotations.\n"
